@@ -36,6 +36,12 @@ def build_doc(seed):
     hs = style.Style(name='HP', family='paragraph'); doc.automaticstyles.addElement(hs)
     mp = style.MasterPage(name='Standard', pagelayoutname='pm1'); h = style.Header(); h.addElement(text.P(stylename='HP', text='head')); mp.addElement(h)
     doc.masterstyles.addElement(mp)
+    # a picture and an embedded object with a picture of its own: they are output too
+    from odf.opendocument import OpenDocumentChart
+    from odf import chart, draw
+    ch = OpenDocumentChart(); ch.chart.addElement(chart.Chart(attributes={'class': 'chart:bar'})); ch.addPicture('Pictures/inner.png', 'image/png', b'INNER')
+    p = text.P(); doc.text.addElement(p); fr = draw.Frame(); p.addElement(fr); fr.addElement(draw.Object(href=doc.addObject(ch)))
+    fr2 = draw.Frame(); p.addElement(fr2); fr2.addElement(draw.Image(href=doc.addPicture('Pictures/outer.png', 'image/png', b'OUTER')))
     return doc
 
 def snapshot(doc, with_generator=False):
@@ -53,18 +59,19 @@ def snapshot(doc, with_generator=False):
     # what the queries return: the very elements, in the order returned
     qs = [[id(e) for e in doc.getElementsByType(f)] for f in (text.P, text.Span, style.Style, office.Text, style.MasterPage)]
     st = [doc.getStyleByName(n) is not None for n in ('S0', 'S1', 'S2', 'HP', 'nope')]
-    return {'sections': secs, 'topnode': top, 'index': idx, 'queries': qs, 'styles': st, 'pictures': sorted(doc.Pictures), 'mimetype': doc.mimetype}
+    return {'sections': secs, 'topnode': top, 'index': idx, 'queries': qs, 'styles': st, 'pictures': sorted(doc.Pictures), 'mimetype': doc.mimetype,
+            'objects': [(id(o), o.folder, sorted(o.Pictures), X.walk_real(o.body)) for o in doc.childobjects]}
 
 def call(doc, kind):
     if kind == 'save':
-        b = io.BytesIO(); doc.save(b); pk = P.read_package(b.getvalue()); return {n: pk['members'][n] for n in ('content.xml', 'styles.xml', 'meta.xml', 'settings.xml') if n in pk['members']}
+        b = io.BytesIO(); doc.save(b); pk = P.read_package(b.getvalue()); return dict(pk['members'])
     if kind == 'write':
-        b = io.BytesIO(); doc.write(b); pk = P.read_package(b.getvalue()); return {n: pk['members'][n] for n in ('content.xml', 'styles.xml', 'meta.xml', 'settings.xml') if n in pk['members']}
+        b = io.BytesIO(); doc.write(b); pk = P.read_package(b.getvalue()); return dict(pk['members'])
     out = getattr(doc, kind)()
     return {kind: out if isinstance(out, bytes) else out.encode('utf-8')}
 
 def infoset(outs):
-    return {k: X.expat_parse(v) for k, v in outs.items()}
+    return {k: X.expat_parse(v) if k.endswith('xml') else v for k, v in outs.items()}        # XML members as infosets, the others (pictures, mimetype) as bytes
 
 def run(ctx):
     L = 2 if ctx.quick else 3
